@@ -3,6 +3,7 @@ import Driver.SerOps
 import Driver.DagOps
 import Driver.RangeOps
 import Driver.GeomOps
+import Driver.MgrOps
 /-
   Line-protocol driver: one operation per input line, one canonical result line per operation.
   Imports Model only (core Lean), so it links as a `lean_exe`.
@@ -10,7 +11,7 @@ import Driver.GeomOps
 open Driver
 
 structure St where
-  dummy : Unit := ()
+  mgr : Dvid.Manager.State := Dvid.Manager.init
 
 def step (st : St) (line : String) : St × String :=
   let w := words line
@@ -28,6 +29,9 @@ def step (st : St) (line : String) : St × String :=
   | none =>
   match geomOps w with
   | some r => (st, r)
+  | none =>
+  match mgrOps st.mgr w with
+  | some (m, r) => ({ st with mgr := m }, r)
   | none => (st, "bad-op")
 
 partial def loop (h : IO.FS.Stream) (out : IO.FS.Stream) (st : St) : IO Unit := do
